@@ -51,6 +51,13 @@ class WireMonitor:
         self.data_tx = []  # (time, frm, retx, payload)
         self.probes = {}
         self.first_write = None
+        # receive-path differential (opt-in, engines whose transport stays open): the specification-derived host receiver
+        # is fed the same bytes; deliveries, reset notifications caused by frames, and the ACK/NAK numbers written must agree
+        self.rxdiff = False
+        self.rxmodel = R.HostReceiverModel()
+        self.host_wr = []  # ('ack'|'nak', n) in write order
+        self.host_up = []  # ('up', payload) | ('reset', code) caused by received frames
+        self._rx_reported = False
 
     def _v(self, clause, key, text):
         self.viol.append((clause, key, text))
@@ -80,6 +87,8 @@ class WireMonitor:
         if R.reencode(fr) != data[ncan:]:
             self._v("C03.tx", "reencode", f"independent encoder gives {R.reencode(fr).hex()} for {fr}, host wrote {data[ncan:].hex()}")
         self.tx_frames.append((now, fr))
+        if kind in ("ack", "nak"):
+            self.host_wr.append((kind, fr[1]))
         if kind == "data":
             self._on_data_tx(now, fr, data)
         return fr
@@ -142,6 +151,8 @@ class WireMonitor:
         """Call just before the chunk is handed to the host protocol."""
         now = self.loop.time()
         frames = self.rdec.feed(chunk)
+        if self.rxdiff:
+            self.rxmodel.feed(chunk)
         for fr in frames:
             k = fr[0]
             if k == "bad":
@@ -169,17 +180,44 @@ class WireMonitor:
                 self.error_unclaimed += 1
         return frames
 
+    def on_host_deliver(self, payload: bytes):
+        """The real protocol handed a DATA payload to its upper layer."""
+        self.host_up.append(("up", bytes(payload)))
+
+    def rx_check(self, where=""):
+        """Call after each read was handed to the host: everything the reference receiver produced for the bytes so far
+        must have been produced by the real one (answered before any later event is processed), and nothing else."""
+        if not self.rxdiff or self._rx_reported:
+            return
+        m = self.rxmodel
+        if self.host_up != m.up:
+            self._rx_reported = True
+            n = next((i for i, (a, b) in enumerate(zip(self.host_up, m.up)) if a != b), min(len(self.host_up), len(m.up)))
+            text = (f"upward deliveries / reset notifications diverge from the reference receiver at event {n} (t={self.loop.time():.6f}{where}): "
+                    f"real {self.host_up[n:n + 3]} reference {m.up[n:n + 3]}")
+            self._v("C04.iff", "link-deliveries", text)
+            self._v("C02.equiv", "link-deliveries", text)
+        elif self.host_wr != m.wr:
+            self._rx_reported = True
+            n = next((i for i, (a, b) in enumerate(zip(self.host_wr, m.wr)) if a != b), min(len(self.host_wr), len(m.wr)))
+            text = (f"ACK/NAK frames written diverge from the reference receiver at answer {n} (t={self.loop.time():.6f}{where}): "
+                    f"real {self.host_wr[n:n + 3]} reference {m.wr[n:n + 3]}")
+            self._v("C04.answer", "link-answers", text)
+            self._v("C02.equiv", "link-answers", text)
+
     def on_reset_received(self, code):
         """The real protocol called upper.reset_received(code)."""
         now = self.loop.time()
         if self.rstack_pending:
             self.rstack_pending -= 1
             self.rstack_notifications += 1
+            self.host_up.append(("reset", int(code)))
             return "rstack"
         self.fail_notifications += 1
         o = self.outstanding
         if self.error_unclaimed and self.error_at is not None and abs(self.error_at - now) <= EPS:
             self.error_unclaimed -= 1
+            self.host_up.append(("reset", int(code)))
             self._probe("fail_by_error_frame")
         elif o is not None and o[2] >= ACK_TIMEOUTS:
             self._probe("fail_by_budget")
